@@ -45,10 +45,10 @@ ASSUMPTIONS = [
     "Split decides about hoisting a filled Cache into a Source when it is constructed; histories "
     "that drop the cache behind an already constructed Split object are not generated",
 ]
-FAULT_KINDS = ["read-error-EIO", "consumer-stop-close", "consumer-stop-drop", "raise-downstream",
+FAULT_KINDS = ["read-error-EIO", "consumer-stop-close", "consumer-stop-drop", "consumer-stop-hold", "raise-downstream",
                "raise-upstream-source", "raise-upstream-element", "drop_cache",
                "recompute", "process-crash"]
-EXPECTED_PROBES = ["source-reuses-one-context-object", "same-object-reused", "split-form-replay", "read-error-surfaced-loudly", "replay-run", "replay-after-interrupted-run", "stop-at-exact-length",
+EXPECTED_PROBES = ["held-generator-released-before-a-later-run", "other-object-ran-in-between", "downstream-updates-in-place", "source-reuses-one-context-object", "same-object-reused", "split-form-replay", "read-error-surfaced-loudly", "replay-run", "replay-after-interrupted-run", "stop-at-exact-length",
                    "two-caches-inner-replay", "hoisted-to-source", "empty-flow-cached",
                    "interrupted-recompute-over-existing-cache", "accumulator-upstream-of-replay"]
 
@@ -66,9 +66,44 @@ def value(r, i, with_context):
     return data
 
 
+def find_ctx(v):
+    """the first context dictionary inside a (possibly wrapped) value"""
+    if isinstance(v, tuple):
+        if len(v) == 2 and isinstance(v[1], dict):
+            return v[1]
+        for x in v:
+            c = find_ctx(x)
+            if c is not None:
+                return c
+    return None
+
+
+class MutPost(object):
+    """downstream element that counts its visits in the context of the value, in place"""
+
+    def __call__(self, value):
+        ctx = find_ctx(value)
+        if ctx is not None:
+            ctx["hits"] = ctx.get("hits", 0) + 1
+        return value
+
+
+def mutated(v):
+    v = copy.deepcopy(v)
+    ctx = find_ctx(v)
+    if ctx is not None:
+        ctx["hits"] = ctx.get("hits", 0) + 1
+    return v
+
+
 def install(fs):
     cache_mod.os = SimOS(fs)
     cache_mod.open = fs.open
+    # process-global counters of the module (used for unique temporary file names) start afresh
+    # for every simulated history, whatever they are called: a run is a function of its tape only
+    for name, val in list(vars(cache_mod).items()):
+        if isinstance(val, itertools.count):
+            setattr(cache_mod, name, itertools.count())
 
 
 class Op(object):
@@ -101,17 +136,28 @@ def gen_scenario(tape):
     sc.protocol = tape.choice([2, 0, 1, 3, 4, 5], "protocol")
     sc.method = tape.choice(["cPickle", "pickle"], "method")
     sc.nest = tape.chance(1, 5, "nest")
+    # a downstream element directly behind the last cache that updates the context of the value
+    # in place: what the cache stores is the flow as it PASSED the cache
+    sc.post_mut = (sc.with_context and not getattr(sc, "shared_ctx", False) and not sc.fc
+                   and tape.chance(1, 4, "downstream-updates-in-place"))
+    # a second pipeline object on the same cache files (another process, another notebook cell)
+    sc.two = sc.reuse and sc.form != "split" and tape.chance(1, 2, "two-objects")
     nops = 1 + tape.draw(5, "nops")
     sc.ops = []
-    cur_flags = [False] * sc.ncaches
-    have_object = False
+    flags_of = {0: [False] * sc.ncaches, 1: [False] * sc.ncaches}
+    have_of = {0: False, 1: False}
     for _ in range(nops):
         op = Op()
+        op.obj = tape.draw(2, "which-object") if sc.two else 0
+        cur_flags = flags_of[op.obj]
+        have_object = have_of[op.obj]
         op.kind = tape.weighted([(5, "complete"), (4, "stop"), (2, "raise-down"),
                                  (2, "raise-up"), (1, "drop")], "op")
         op.n = tape.draw(7, "flowlen")
         op.recompute = [tape.chance(1, 6, "recompute") for _ in range(sc.ncaches)]
         op.hoist = tape.weighted([(4, "none"), (2, "cache"), (1, "core")], "hoist")
+        # generators that an earlier consumer stopped and kept are closed before this operation
+        op.release = tape.chance(1, 3, "release-held-generators")
         op.rebuild = True
         if sc.reuse:
             # now and then the object is built anew (a new process); in between it is re-used
@@ -131,6 +177,8 @@ def gen_scenario(tape):
                 op.recompute = list(cur_flags)
             if op.kind != "drop":
                 have_object = True
+        flags_of[op.obj] = cur_flags
+        have_of[op.obj] = have_object
         if sc.form == "split":
             op.hoist = "none"
         op.k = 0
@@ -138,7 +186,9 @@ def gen_scenario(tape):
         op.target = None
         if op.kind == "stop":
             op.k = tape.draw(op.n + 2, "stop-k", sweep=True)
-            op.how = tape.choice(["close", "drop"], "how")
+            # hold: the consumer stops but keeps the suspended generator (released at the end
+            # of the history)
+            op.how = tape.choice(["close", "drop", "hold"], "how")
         elif op.kind == "raise-down":
             op.k = tape.draw(max(op.n, 1), "raise-k", sweep=True)
             # which downstream element raises; none available -> consumer-side stop
@@ -204,6 +254,8 @@ class Pipeline(object):
         els.extend(self.mid)
         if sc.ncaches == 2:
             els.append(self.caches[1])
+        if getattr(sc, "post_mut", False):
+            els.append(MutPost())
         els.extend(self.post)
         if sc.form == "sequence":
             self.seq = lena.core.Sequence(*els)
@@ -318,6 +370,8 @@ def model_run(sc, op, r, combo):
         stages += [("el", "mid%d" % i) for i in range(sc.nmid)]
         if sc.ncaches == 2:
             stages.append(("cache", 1))
+    if getattr(sc, "post_mut", False):
+        stages.append(("mut", "mut"))
     stages += [("el", "post%d" % i) for i in range(sc.npost)]
     before_fc = bool(sc.fc) and last is None
     for kind, name in stages:
@@ -328,6 +382,8 @@ def model_run(sc, op, r, combo):
         elif kind == "fc":
             flow = [("fc", "fc", 0, ("v", r, -1), tuple(flow))]
             before_fc = False
+        elif kind == "mut":
+            flow = [mutated(v) for v in flow]
         else:
             dumped[name] = tuple(flow)
     full = flow
@@ -367,9 +423,12 @@ def run(tape):
                              sc.pre_kinds, sc.fc, sc.nmid, sc.post_kinds, sc.nest,
                              sc.with_context, sc.protocol))
     allowed = [[None] for _ in range(sc.ncaches)]
-    shared = {"pl": None}
+    shared = {}
     if sc.reuse:
         res.say("pipeline objects are re-used between runs unless a run says 'new object'")
+    if getattr(sc, "post_mut", False):
+        res.say("an element directly behind the last cache updates the context of every value in place")
+        res.probe("downstream-updates-in-place")
     if getattr(sc, "shared_ctx", False):
         res.say("the source re-uses one context dictionary for all values and updates it in place")
         res.probe("source-reuses-one-context-object")
@@ -382,16 +441,28 @@ def run(tape):
         for op in sc.ops:
             if res.violations:
                 break
+            if getattr(op, "release", False) and shared.get("held"):
+                # the consumer that had stopped finally lets go of its generator(s)
+                log.ev("op", "release-held", len(shared["held"]))
+                res.say("the %d generator(s) kept by earlier consumers are closed" % len(shared["held"]))
+                res.probe("held-generator-released-before-a-later-run")
+                for g in shared["held"]:
+                    try:
+                        g.close()
+                    except Exception as e:  # noqa: BLE001
+                        log.ev("raise", "release", type(e).__name__)
+                shared["held"] = []
             if op.kind == "drop":
                 log.ev("op", "drop_cache", op.target)
                 res.say("drop_cache(cache %d)" % (op.target + 1))
                 res.fault("drop_cache")
-                if sc.reuse and shared["pl"] is not None:
-                    pl = shared["pl"]
+                key = ("pl", getattr(op, "obj", 0))
+                if sc.reuse and shared.get(key) is not None:
+                    pl = shared[key]
                 else:
                     pl = Pipeline(sc, _plain_op(sc), log, -1)
                     if sc.reuse:
-                        shared["pl"] = pl
+                        shared[key] = pl
                 try:
                     pl.caches[op.target].drop_cache()
                 except OSError:
@@ -411,6 +482,8 @@ def run(tape):
                 desc += " hoist=%s" % op.hoist
             if sc.reuse and op.rebuild and r > 1:
                 desc += " (new object)"
+            if getattr(sc, "two", False):
+                desc += " [object %d]" % op.obj
             if op.eio:
                 desc += " EIO at read %d" % op.eio
             if op.crash:
@@ -473,6 +546,8 @@ def _plain_op(sc):
     op.hoist = "none"
     op.eio = None
     op.crash = None
+    op.obj = 0
+    op.release = False
     return op
 
 
@@ -484,14 +559,19 @@ def execute_run(sc, op, log, r, res, fs, shared=None):
     pl = None
     gen = None
     try:
-        if shared is not None and sc.reuse and shared["pl"] is not None and not op.rebuild:
-            pl = shared["pl"]
+        key = ("pl", getattr(op, "obj", 0))
+        if shared is not None and sc.reuse and shared.get(key) is not None and not op.rebuild:
+            pl = shared[key]
             pl.configure(op, r)
             res.probe("same-object-reused")
+            if getattr(sc, "two", False) and shared.get("last-obj") not in (None, op.obj):
+                res.probe("other-object-ran-in-between")
         else:
             pl = Pipeline(sc, op, log, r)
             if shared is not None and sc.reuse:
-                shared["pl"] = pl
+                shared[key] = pl
+        if shared is not None:
+            shared["last-obj"] = getattr(op, "obj", 0)
         gen, hoisted = pl.start(op.hoist)
         want = op.k if op.kind == "stop" else None
         while want is None or len(out) < want:
@@ -508,6 +588,11 @@ def execute_run(sc, op, log, r, res, fs, shared=None):
                 res.fault("consumer-stop-close")
                 log.ev("stop", "close")
                 gen.close()
+            elif op.how == "hold":
+                res.fault("consumer-stop-hold")
+                log.ev("stop", "hold")
+                if shared is not None:
+                    shared.setdefault("held", []).append(gen)
             else:
                 res.fault("consumer-stop-drop")
                 log.ev("stop", "drop")
